@@ -1,6 +1,6 @@
 """C08 — COUNT, VariantNames, VariantArray and EnumIter describe the same variant list."""
 from ..core import Result, Corpus, proof_stage, correspond, distribution
-from ..spec import hx
+from ..spec import hx, ESpec
 from .. import itercorpus, runner
 from ..strcorpus import STYLES
 
@@ -29,6 +29,23 @@ def generate(tier, rng):
                 c.op(e.id, 'collect', 'iter/' + pl)
                 c.op(e.id, 'variants', 'names/' + pl)
                 c.op(e.id, 'varray', 'array/' + pl)
+    # equal canonical names on neighbouring variants (legal for these derives): VARIANTS keeps one entry per variant
+    from ..spec import VSpec
+    for j, (style, idents, attrs) in enumerate([('lowercase', ['Http', 'HTTP', 'Tcp', 'TCP'], {}), (None, ['Low', 'Mid', 'Mid2', 'High'], {'Mid2': 'Mid'}),
+                                                 ('UPPERCASE', ['ab', 'Ab', 'AB', 'cd'], {}), ('snake_case', ['FooBar', 'Foo_Bar', 'Baz'], {})]):
+        e = ESpec(id='c08d%d' % j, name='EnC08d%d' % j, style=style, derives=['EnumIter', 'EnumCount', 'VariantNames', 'VariantArray'],
+                  feats=['iter', 'count', 'vnames', 'varray'])
+        for i in idents:
+            v = VSpec(ident=i)
+            if i in attrs:
+                v.ts = attrs[i]
+            e.variants.append(v)
+        e.extra['shape'] = 'adjacent-equal-names'
+        c.add(e)
+        c.op(e.id, 'count', 'count/dup')
+        c.op(e.id, 'collect', 'iter/dup')
+        c.op(e.id, 'variants', 'names/dup')
+        c.op(e.id, 'varray', 'array/dup')
     return c
 
 
